@@ -73,7 +73,9 @@ func Items(thorough bool) ([]item, error) {
 	// values that are not the decoding of a pool text: binary approximations of 0.1
 	f32 := float32(0.1)
 	f64 := 0.1
-	extras := []any{f32, f64, float64(f32), &f32, []any{f32}, []float32{f32}, []any{f64}, map[string]any{"a": f32}, map[string]float64{"a": f64}, json.Number("0.10"), json.Number("1E-1")}
+	extras := []any{f32, f64, float64(f32), &f32, []any{f32}, []float32{f32}, []any{f64}, map[string]any{"a": f32}, map[string]float64{"a": f64}, json.Number("0.10"), json.Number("1E-1"),
+		// numbers far outside the float64 range are numbers all the same (and not the strings they are spelled with)
+		json.Number("1e400"), json.Number("10e399"), json.Number("1E+400"), json.Number("1e-400"), json.Number("10e-401"), json.Number("2e400"), "1e400", []any{json.Number("1e400")}, map[string]any{"a": json.Number("10e399")}}
 	// slices that share a backing array with another value of the set (aliasing
 	// between the two sides must not matter: only the JSON value does)
 	all := []any{float64(1), float64(2), float64(3)}
